@@ -29,7 +29,7 @@ INSTANCES = {
                                                FillDeltas="PL_FillDeltas"), den_bound=1728),
     # create_solution / create_solution_from tables (one step from the initial state)
     "LabSOL": dict(module="MC_Lab", consts=dict(Subst="Subst5", Names="SOL_Names", Shape="SOL_Shape", InitVes="SOL_Init",
-                                                SolCases="SOL_CasesQuick", FromCases="SOL_FromQuick"), den_bound=100000),
+                                                SolCases="SOL_CasesQuick", FromCases="SOL_FromQuick"), den_bound=1000),
 }
 
 
@@ -54,3 +54,33 @@ def write_cfg(instance, tag, depth, shard=0, nshards=1, overrides=None, spec="Sp
     with open(path, "w") as fh:
         fh.write("\n".join(lines) + "\n")
     return inst["module"], path
+
+
+# ---- Recipe.tla instances -----------------------------------------------------------------------------------------
+RECIPE_INVARIANTS = ["OneOpenStage", "StageNamesUnique", "StagesWellFormed", "BakeClosesStage", "DeclaredNamesUnique",
+                     "OnlyDeclaredUsed", "BakeOnlyWhenAllUsed", "LedgerIsFold", "DoomedNeverBakes", "StageAdditivity",
+                     "FlowBalance", "TrashIsRemoved", "NonNeg", "CapOK", "VolConsistent"]
+RECIPE_PROPERTIES = ["LockedFreezes", "LockedRefuses"]
+RECIPE_INSTANCES = {
+    "RecipeLife": dict(init="LIFE_Init", alphabet="LIFE_Alphabet", objname="R_ObjName", auto_uses=False, life=True),
+    "RecipeProg": dict(init="PROG_Init", alphabet="PROG_Alphabet", objname="PROG_ObjName", auto_uses=True, life=False),
+    "RecipeCore": dict(init="PROG_Init", alphabet="PROG_Core", objname="PROG_ObjName", auto_uses=True, life=False),
+}
+
+
+def write_recipe_cfg(instance, tag, maxcalls, shard=0, nshards=1):
+    ri = RECIPE_INSTANCES[instance]
+    lines = ["SPECIFICATION RSpec", "CONSTANTS", "  Subst <- R_Subst", "  Names <- R_Names", "  Shape <- R_Shape",
+             f"  InitVes <- {ri['init']}", "  Regions <- R_Regions", "  Forms <- NoC", "  Fracs <- NoS", "  TUnits <- NoS",
+             "  CapStep <- One", "  RemoveCases <- NoC", "  FillCases <- NoC", "  FillDeltas <- NoS", "  DiluteCases <- NoC",
+             "  DiluteYs <- NoS", "  NewCases <- NoC", "  SolCases <- NoS", "  FromCases <- NoS", "  MaxDepth = 99",
+             "  DenBound = 2000", f"  Shard = {shard}", f"  NShards = {nshards}", f"  Alphabet <- {ri['alphabet']}",
+             f"  ObjName <- {ri['objname']}", f"  AutoUses = {'TRUE' if ri['auto_uses'] else 'FALSE'}",
+             f"  MaxCalls = {maxcalls}", f"  Life = {'TRUE' if ri['life'] else 'FALSE'}", "  DSets <- R_DSets",
+             "VIEW RView", "CHECK_DEADLOCK FALSE"]
+    lines += [f"INVARIANT {i}" for i in RECIPE_INVARIANTS] + [f"PROPERTY {p}" for p in RECIPE_PROPERTIES]
+    os.makedirs(os.path.join(BUILD, "tlc"), exist_ok=True)
+    path = os.path.join(BUILD, "tlc", tag + ".cfg")
+    with open(path, "w") as fh:
+        fh.write("\n".join(lines) + "\n")
+    return "MC_Recipe", path
